@@ -18,13 +18,30 @@ def CycFb : Prop := ∀ x, Reach P env x x → IsFb P x
 
 variable {P env}
 
+/-- gate-free programs: the Boolean reachability does not depend on the assignment. -/
+theorem reach_noGate (hG : P.NoGate) (ρ ρ' : Nat → Nat) :
+    ∀ (k a b : Nat), reach P env ρ k a b = reach P env ρ' k a b := by
+  intro k
+  induction k with
+  | zero => intro a b; rfl
+  | succ k ih =>
+    intro a b
+    simp only [reach]
+    rw [callees_noGate env ρ ρ' _ (noGate_node hG a)]
+    congr 1
+    funext c
+    rw [ih c b]
+
+theorem onCycle_noGate (hG : P.NoGate) (ρ ρ' : Nat → Nat) (i : Nat) :
+    onCycle P env ρ i = onCycle P env ρ' i := reach_noGate hG ρ ρ' _ i i
+
 /-- the value of a memo in a justified and complete database. -/
 theorem dbOk_value {final : List (Nat × Nat)} (hF : DbOkF P env final) (hC : DbOkC P env final)
     {x w : Nat} (hx : final.lookup x = some w) :
     (Reach P env x x → IsFb P x → w = fallbackValue P x) ∧
     (¬ Reach P env x x →
       w = evalExpr env (fun c => (final.lookup c).getD 0) (P.node x).body ∧
-      ∀ c ∈ callees env (P.node x).body, (final.lookup c).isSome = true) := by
+      ∀ c ∈ callees env ρ0 (P.node x).body, (final.lookup c).isSome = true) := by
   refine ⟨hC.fb x w hx, ?_⟩
   intro hnr
   refine ⟨?_, hC.closed x w hx⟩
@@ -33,7 +50,7 @@ theorem dbOk_value {final : List (Nat × Nat)} (hF : DbOkF P env final) (hC : Db
   · exact EvalRel.exact (ρ := fun c => (final.lookup c).getD 0)
       (fun c u hu => by simp [hu]) h
 
-theorem dbOk_unique_aux (hcf : CycFb P env) {f1 f2 : List (Nat × Nat)}
+theorem dbOk_unique_aux (hG : P.NoGate) (hcf : CycFb P env) {f1 f2 : List (Nat × Nat)}
     (hF1 : DbOkF P env f1) (hC1 : DbOkC P env f1) (hF2 : DbOkF P env f2)
     (hC2 : DbOkC P env f2) :
     ∀ (k x w1 w2 : Nat), ¬ Deep (P := P) (env := env) k x → f1.lookup x = some w1 →
@@ -50,6 +67,7 @@ theorem dbOk_unique_aux (hcf : CycFb P env) {f1 f2 : List (Nat × Nat)}
       rw [e1, e2]
       apply evalExpr_congr
       intro c hc
+      rw [callees_noGate env _ ρ0 _ (noGate_node hG x)] at hc
       have hdc : ¬ Deep (P := P) (env := env) k c := fun h => hd (Deep.succ hr hc h)
       cases hl1 : f1.lookup c with
       | none => have := c1 c hc; rw [hl1] at this; cases this
@@ -61,16 +79,16 @@ theorem dbOk_unique_aux (hcf : CycFb P env) {f1 f2 : List (Nat × Nat)}
           rw [ih c u1 u2 hdc hl1 hl2]
 
 /-- **two justified and complete databases agree wherever both have a memo.** -/
-theorem dbOk_unique (hcf : CycFb P env) {f1 f2 : List (Nat × Nat)}
+theorem dbOk_unique (hG : P.NoGate) (hcf : CycFb P env) {f1 f2 : List (Nat × Nat)}
     (hF1 : DbOkF P env f1) (hC1 : DbOkC P env f1) (hF2 : DbOkF P env f2)
     (hC2 : DbOkC P env f2) {x w1 w2 : Nat} (h1 : f1.lookup x = some w1)
     (h2 : f2.lookup x = some w2) : w1 = w2 := by
-  refine dbOk_unique_aux hcf hF1 hC1 hF2 hC2 (P.n + 1) x w1 w2 ?_ h1 h2
+  refine dbOk_unique_aux hG hcf hF1 hC1 hF2 hC2 (P.n + 1) x w1 w2 ?_ h1 h2
   intro hd
   have := hd.bound
   omega
 
-theorem dbOk_fbRef (hW : P.Wf) (hcf : CycFb P env) {f : List (Nat × Nat)}
+theorem dbOk_fbRef (hW : P.Wf) (hG : P.NoGate) (hcf : CycFb P env) {f : List (Nat × Nat)}
     (hF : DbOkF P env f) (hC : DbOkC P env f) :
     ∀ (k x w : Nat), ¬ Deep (P := P) (env := env) k x → f.lookup x = some w →
       fbRef P env k x = w := by
@@ -80,6 +98,7 @@ theorem dbOk_fbRef (hW : P.Wf) (hcf : CycFb P env) {f : List (Nat × Nat)}
   | succ k ih =>
     intro x w hd hx
     simp only [fbRef]
+    rw [onCycle_noGate hG (fbRef P env k) ρ0 x]
     split
     · rename_i hon
       have hr : Reach P env x x := onCycle_sound P env x hon
@@ -90,6 +109,7 @@ theorem dbOk_fbRef (hW : P.Wf) (hcf : CycFb P env) {f : List (Nat × Nat)}
       rw [e1]
       apply evalExpr_congr
       intro c hc
+      rw [callees_noGate env _ ρ0 _ (noGate_node hG x)] at hc
       have hdc : ¬ Deep (P := P) (env := env) k c := fun h => hd (Deep.succ hr hc h)
       cases hl : f.lookup c with
       | none => have := c1 c hc; rw [hl] at this; cases this
@@ -99,10 +119,10 @@ theorem dbOk_fbRef (hW : P.Wf) (hcf : CycFb P env) {f : List (Nat × Nat)}
 
 /-- **every memo of a justified and complete database is the value of the executable
     reference** (`fallback` iff on a cycle, else the body over the reference). -/
-theorem dbOk_fbReference (hW : P.Wf) (hcf : CycFb P env) {f : List (Nat × Nat)}
+theorem dbOk_fbReference (hW : P.Wf) (hG : P.NoGate) (hcf : CycFb P env) {f : List (Nat × Nat)}
     (hF : DbOkF P env f) (hC : DbOkC P env f) {x w : Nat} (hx : f.lookup x = some w) :
     fbReference P env x = w := by
-  refine dbOk_fbRef hW hcf hF hC (P.n + 1) x w ?_ hx
+  refine dbOk_fbRef hW hG hcf hF hC (P.n + 1) x w ?_ hx
   intro hd
   have := hd.bound
   omega
